@@ -89,7 +89,7 @@ def eval_verdicts(cases, shard):
             f.write('From TV Require Import Base.I32 %s.\nOpen Scope Z_scope.\nDefinition cases : list c09case := [\n' % IMPORTS)
             f.write(';\n'.join(shards[k]))
             f.write('\n].\nGoal True. let r := eval vm_compute in (verdicts 0%N cases) in idtac "@@RESULT" r. exact I. Qed.\n')
-        return subprocess.Popen(['timeout', '1800', 'coqc', '-noglob', '-Q', os.path.join(COQ, 'theories'), 'TV', path],
+        return subprocess.Popen(['timeout', '3600', 'coqc', '-noglob', '-Q', os.path.join(COQ, 'theories'), 'TV', path],
                                 cwd=d, stdout=subprocess.PIPE, stderr=subprocess.STDOUT, text=True)
     pending, running = list(range(len(shards))), {}
     while pending or running:
@@ -158,7 +158,7 @@ def main(argv):
             lines += run_harness(v, ['text', f], seed, timeout=300)
         for f in sorted(glob.glob(os.path.join(VERIF, 'corpus', 'C09', '*.ecl'))):
             lines += run_harness(v, ['ecl10', f], seed, timeout=300)
-        nprog, maxmut, cli = (90, 8, 30) if tier == 'quick' else (600, 0, 400)
+        nprog, maxmut, cli = (70, 8, 30) if tier == 'quick' else (250, 0, 200)
         if os.environ.get('C09_GEN'): nprog, maxmut, cli = [int(x) for x in os.environ['C09_GEN'].split(',')]
         lines += run_harness(v, ['gen', nprog, maxmut, cli], seed)
     if h_ok and replay:
@@ -183,7 +183,7 @@ def main(argv):
     for k in kinds: hist[k] = hist.get(k, 0) + 1
     base_rejected = [n for n in notes if n and n[0] == 'base program rejected']
 
-    shard = 200 if tier == 'quick' else 400
+    shard = 100 if tier == 'quick' else 200
     mism, smism, explained = [], [], {}
     if v.corr_ok and cases:
         # one pass inside Coq: (X) model (with the tables read from the source) vs implementation; (O) reference
